@@ -69,6 +69,10 @@ PROPS = {
                   "Truncated/bit-flipped/random/empty/badly-compressed/mis-typed/mis-routed bodies and extreme parameters are interleaved with honest pushes; the simrt.Go wrapper sees panics net/http would not, the census follows spawn ancestry, a goroutine that spins inside uninstrumented code is caught by the driver's wall-clock watchdog and attributed to its scenario.",
                   "input space sampled by mutation recipes; a stall inside uninstrumented code is detected by wall clock (60-90 s), not by the step counter", INGEST_RULE,
                   ["request-answered-5xx", "request-answered-2xx"], stall=True, design_ref="DESIGN.md §4 C05"),
+}
+PROPS["C05"]["known_probes"] = ["findings/C05-influx-stream-parser-spins.json"]
+PROPS["C05"]["stall_timeout"] = 60
+PROPS.update({
     "C18": {
         "pkg": "ctrlsim", "test": "TestC18", "instrument": False, "level": "fault_enumeration",
         "technique": "deterministic simulation of process incarnations with statement-level fault/crash injection: exhaustive single-fault enumeration + seeded multi-fault histories (rapid), oracle = catalogue model + script-order tracker",
@@ -102,4 +106,4 @@ PROPS = {
         "components": CTRL_COMPONENTS, "trusted_base": DDL_TRUST,
         "assumptions": ["the data tables of the property are the seven tables the retention code groups: samples_v3, tempo_traces, metrics_15s (sample tables) and time_series, time_series_gin, tempo_traces_attrs_gin, tempo_traces_kv (index tables)"],
     },
-}
+})
